@@ -61,7 +61,7 @@ RULE = ('every multiset of <= K fragment letters (mate gap x variant x R1 length
         'every api incl. the command line; a case is non-trivial when the coverage has a gap or some '
         'position carries conflicting observations (solo cases always); states = distinct cases')
 ASSUMPTIONS = [
-    'bases ACGT with phred 10 or 30 (at these qualities a unanimous observation is more likely than "N"); phred 20 on the second alternative base, 50 / 60 on two letters',
+    'bases ACGT with phred 10 or 30 (at these qualities a unanimous observation is more likely than "N"); phred 20 on the second alternative base, 50 / 60 on two letters; a no-call (N at phred 0 / 2) in a source read is not an observation of a base (seven-fragment words: one call against six no-calls)',
     'a position observed with three different bases: a base whose sorted quality list dominates that of every other base is THE most likely call under any model monotone in the evidence; '
     'two bases with identical evidence that each dominate the third are equally most likely (undecidable, N); every other constellation is left open',
     'the consensus of a molecule does not depend on the order in which its fragments were associated (the property speaks of the molecule\'s reads, not of a history)',
@@ -193,6 +193,10 @@ def _letter_fragment_interior(letter, strand):
         # fragment a position is observed with three different bases
         r1['seq'][mm1] = _alt2(r1['seq'][mm1])
         r1['quals'][mm1] = MM1_SECOND[variant]
+    if variant in ('n0', 'n2'):
+        # the read carries a NO-CALL (N) at the mismatch position, at phred 0 / 2: not an observation of any base
+        r1['seq'][mm1] = 'N'
+        r1['quals'][mm1] = 0 if variant == 'n0' else 2
     if variant == 'mm1q60':
         # a mismatch called at phred 60: against a phred-50 observation of the other base it still dominates
         r1['seq'][mm1] = _alt(r1['seq'][mm1])
@@ -378,7 +382,11 @@ def expected_call(ob):
     """-> (kind, base) ; kind in unanimous / symmetric / dominating / open"""
     by = {}
     for b, q in ob:
+        if b == 'N':
+            continue            # a no-call in a source read is not an observation of a base
         by.setdefault(b, []).append(q)
+    if not by:
+        return 'open', None     # the position was only ever read as N: what the record shows there is not judged
     for b in by:
         by[b].sort(reverse=True)
     if len(by) == 1:
@@ -1056,6 +1064,20 @@ def _run_orders(cls, strand, part, parts, tier, acc):
             if nosrc is not None:
                 case['no_source_reads'] = nosrc
             _report(acc, case, label=lambda info, api=api: 'orders:' + _outcome(api, info), nontrivial=True)
+    if part == 0:
+        # ONE real call against many no-calls: seven single-end fragments, six of which read N (phred 0 / phred 2) at the
+        # position the seventh calls (the reference base at q30, or the alternative base at q30 / q10), the caller first, in the
+        # middle and last - the no-calls are no evidence for anything, the one call stands
+        for caller in ('clean', 'mm1hi', 'mm1lo'):
+            for nocall in ('n0', 'n2'):
+                for where in (0, 3, 6):
+                    letters = [[None, nocall, 6]] * 6
+                    letters = letters[:where] + [[None, caller, 6]] + letters[where:]
+                    for api, mns, nosrc in configs:
+                        case = {'cls': cls, 'strand': strand, 'letters': letters, 'api': api, 'max_N_span': mns}
+                        if nosrc is not None:
+                            case['no_source_reads'] = nosrc
+                        _report(acc, case, label=lambda info, api=api: 'orders:one-call-six-nocalls:' + _outcome(api, info), nontrivial=True)
 
 
 def _run_solo(cls, tier, acc, place=None):
